@@ -168,6 +168,7 @@ class Impl:
         if hasattr(self, "heap"):
             self.heap, self.kinds, self.trace = [], [], []
             self.sub_state = []
+            self.sub_order = []
         return "ok"
 
     def cmd_filter(self, ts):
